@@ -183,6 +183,11 @@ def run_case(case, res):
                 return m.read(y.dequantize() if isinstance(y, QTensor) else y)
 
             guarded("quantize", lambda: quantize(model, weights=q_t, activations=a_t))
+            SCL = {}
+            if a_t is not None:
+                models.set_scales(model, 0.05, 0.09)
+                for n_, b_ in model.named_buffers():
+                    SCL[n_] = m.symbolic(b_, f"s.{n_}")
             # quantize() must not modify the float tensors it read: the new modules' parameters are the old variables
             same = all(all(a is b for a, b in zip(m.read(p.data).reshape(-1), P0[n].reshape(-1))) for n, p in model.named_parameters() if n in P0)
             if not same:
@@ -190,6 +195,19 @@ def run_case(case, res):
             y1 = guarded("forward-unfrozen", fwd)
             y2 = guarded("forward-unfrozen-again", fwd)
             det1 = all(a is b for a, b in zip(y1.reshape(-1), y2.reshape(-1)))
+
+            def fwd_other_dtype():
+                # an inference with inputs of another float dtype must not leave anything behind either
+                for odt in (torch.bfloat16, torch.float16):
+                    try:
+                        with torch.no_grad():
+                            model(x.to(odt))
+                    except Exception:
+                        pass  # a dtype mismatch error is not a side effect
+
+            guarded("forward-other-dtype", fwd_other_dtype)
+            y2b = guarded("forward-unfrozen-after-other-dtype", fwd)
+            det1 = det1 and all(a is b for a, b in zip(y1.reshape(-1), y2b.reshape(-1)))
             guarded("state_dict", lambda: model.state_dict())
             if a_t is not None:
                 m.unprotect_all()
@@ -208,6 +226,39 @@ def run_case(case, res):
         res.query("repeated-evaluation-bit-identical", "ALG", "unsat" if det1 and det2 else "sat", 0.0, nvars=len(m.ctx.vars))
         if bad or not (det1 and det2):
             res.candidate("nowrite-model", "ALG", enc, note=str(bad[:2]), exact=False)
+            # value-specific writes (e.g. only when a scale is zero): take the other side of every data-dependent branch of the run
+            if SCL and m.path:
+                from symt import rerr
+
+                for i_, (cond_, out_, kind_) in enumerate(m.path[:6]):
+                    try:
+                        r = rerr.Rerr(m.ctx, ideal=True)
+                        pc = r.tr(cond_)
+                        v, secs, mdl = api.solve(r.cons + [z3.Not(pc) if out_ else pc], 20)
+                        res.query("branch-flip", "RERR", "unsat" if v in ("sat", "unsat") else v, secs, sub=f"branch {i_}: other side {'feasible' if v == 'sat' else 'infeasible'}")
+                        if v == "sat":
+                            sc = {n_: api.real_model_values(r, mdl, SCL[n_], torch.float32)[0] for n_ in SCL}
+                            res.candidate("nowrite-model", "RERR-ideal", dict(enc, scales=sc), note="scale values taking the other side of a data-dependent branch", exact=False, cap=6)
+                    except NotImplementedError:
+                        pass
+            # ... and solve for buffer values under which a buffer really changes
+            if SCL:
+                try:
+                    from symt import rerr
+
+                    r = rerr.Rerr(m.ctx, ideal=True)
+                    diffs = []
+                    for n_, b_ in model.named_buffers():
+                        if n_ in SCL:
+                            now = m.read(b_).reshape(-1)
+                            diffs += [r.tr(a_) != r.tr(o_) for a_, o_ in zip(now, SCL[n_].reshape(-1)) if a_ is not o_]
+                    if diffs:
+                        v, secs, mdl = api.solve(r.cons + [z3.Or(*diffs)], 30)
+                        if v == "sat":
+                            sc = {n_: api.real_model_values(r, mdl, SCL[n_], torch.float32)[0] for n_ in SCL}
+                            res.candidate("nowrite-model", "RERR-ideal", dict(enc, scales=sc), note="buffer values under which inference rewrites a buffer", exact=False)
+                except NotImplementedError:
+                    pass
         return
 
     if case["kind"] == "nowrite-lib":
@@ -348,9 +399,13 @@ def replay(rec):
                 y = model(x)
             return (y.dequantize() if isinstance(y, QTensor) else y).clone()
 
+        if inp.get("scales"):
+            for n, b in model.named_buffers():
+                if n in inp["scales"]:
+                    b.fill_(inp["scales"][n])
         for label in ("unfrozen", "calibrated", "frozen"):
             if label == "calibrated":
-                if a_t is None:
+                if a_t is None or inp.get("scales"):
                     continue
                 with torch.no_grad(), Calibration(streamline=False):
                     model(x)
@@ -358,6 +413,12 @@ def replay(rec):
                 freeze(model)
             s0 = snap()
             y1 = fwd()
+            for odt in (torch.bfloat16, torch.float16):
+                try:
+                    with torch.no_grad():
+                        model(x.to(odt))
+                except Exception:
+                    pass
             y2 = fwd()
             model.state_dict()
             s1 = snap()
